@@ -49,6 +49,7 @@ type PathCtx struct {
 	viol   []*Violation
 	stats  PathStats
 	unknowns int
+	cascaded int
 	in     *Interp
 	asserts map[string]*AssertSite
 	reached map[string]bool
@@ -324,11 +325,44 @@ func (p *PathCtx) Assert(c *Term, label string) {
 		site.Violated++
 		p.report("assert", label, p.in.where(), "", neg)
 	default:
-		p.unknowns++
-		p.recordViolation("inconclusive", label, p.in.where(), "solver returned unknown for an assertion", nil)
+		// retry cascade on the other installed solvers
+		r2, m2 := p.cascade(neg)
+		switch r2 {
+		case Unsat:
+			p.stats.AssertUnsat++
+			p.cascaded++
+		case Sat:
+			p.cascaded++
+			site.Violated++
+			p.M = nil
+			_ = m2
+			p.report("assert", label, p.in.where(), "", neg)
+		default:
+			p.unknowns++
+			p.recordViolation("inconclusive", label, p.in.where(), "every solver returned unknown for an assertion", nil)
+		}
 	}
 	// continue under c
 	p.Assume(c)
+}
+
+// cascade re-submits pc ∧ extra to the other solvers (fresh processes).
+func (p *PathCtx) cascade(extra *Term) (Result, Model) {
+	for _, name := range []string{"z3-new", "cvc5"} {
+		s, err := NewSolver(name, 6*p.cfg.QueryTimeoutMs)
+		if err != nil {
+			continue
+		}
+		for _, c := range p.pc {
+			s.Assert(c)
+		}
+		m, r := s.ModelWith(extra, p.tb.vars)
+		s.Close()
+		if r != Unknown {
+			return r, m
+		}
+	}
+	return Unknown, nil
 }
 
 func (p *PathCtx) whereTerm(k KnownFinding) *Term {
